@@ -407,3 +407,34 @@ def x7_pack_refusal_is_what_is_caught(ctx) -> None:
                       "class whose strategy offers no pack makes expand_verified fail instead of being left as it is", construct="VerificationStrategy.pack refusal")
     else:
         ctx.ok("X7", f"a strategy without a pack refuses with {sorted(raised)}, which unexpanded_verified_classes skips")
+
+
+def x8_cache_filled_before_the_database_is_made(ctx) -> None:
+    """`RuleDBForest(rule_cache=xs)` takes a snapshot of xs when it is constructed
+    (`tuple(rule_cache)`): in expand_comb_class the database is made *after* the list of the
+    specification's rules has been filled."""
+    P = ctx.P
+    m = P.need_method(SPEC, "expand_comb_class", own=True)
+    f = m.node
+    ctx.analysed(m)
+    mk = [c for c in walk_local(f) if isinstance(c, ast.Call) and norm(c.func) == "RuleDBForest"]
+    if not mk:
+        raise AnalysisError("X8: expand_comb_class no longer makes a RuleDBForest")
+    init = P.need_method("RuleDBForest", "__init__", own=True)
+    snap = any(isinstance(c, ast.Call) and norm(c.func) == "tuple" and c.args and norm(c.args[0]) == "rule_cache" for c in walk_local(init.node))
+    if not snap:
+        ctx.ok("X8", "RuleDBForest keeps the cache it is given (no snapshot): the order does not matter")
+        return
+    for c in mk:
+        cache = [k.value for k in c.keywords if k.arg == "rule_cache"]
+        if not cache or not isinstance(cache[0], ast.Name):
+            continue
+        nm = cache[0].id
+        fills = [x for x in walk_local(f) if isinstance(x, ast.Call) and isinstance(x.func, ast.Attribute) and isinstance(x.func.value, ast.Name) and x.func.value.id == nm
+                 and x.func.attr in ("append", "extend", "add", "update", "insert")]
+        late = [x for x in fills if x.lineno > c.lineno]
+        if late:
+            ctx.violation("X8", c, f"the forest database is made (`{norm(c)[:50]}`) before `{nm}` is filled (`{norm(late[0])[:40]}` comes later): RuleDBForest copies the cache when "
+                          "it is constructed, so it starts with an empty cache and cannot find the rules that the expansion pack cannot make again")
+        else:
+            ctx.ok("X8", f"the forest database is made after `{nm}` has been filled")
